@@ -110,14 +110,73 @@ package hotstuffpb
 //@   ensures [round-trip-nil] tc.signature == nil ==> result.signature == nil
 //@   ensures [round-trip] samesig(result.signature, tc.signature)
 //@   modifies alloc
-//@ func AggregateQCFromProto property C10
+// Aggregate QC: view and aggregate signature; every wire entry is the encoding of the QC stored
+// under that id (that no entry is lost is not decided: map iteration is modelled without a
+// visited set).
+//@ pred encodableqcs(a hotstuff.AggregateQC) = forall id hotstuff.ID :: {a.qcs[id]} has(a.qcs, id) ==> encodable(a.qcs[id].signature)
+//@ func AggregateQCToProto property C12
+//@   requires encodable(aggQC.sig) && encodableqcs(aggQC)
+//@   ensures [encoded] result != nil && waqc(result) && encodes(result.Sig, aggQC.sig) && result.View == aggQC.view
+//@   loop 0 invariant [entries] pQCs != nil && fresh(pQCs) && (forall k uint32 :: {pQCs[k]} has(pQCs, k) ==> wqc(pQCs[k]))
+//@   modifies alloc
+//@ func AggregateQCFromProto property C10,C12
 //@   requires waqc(m)
+//@   ensures [decoded] m != nil ==> decodes(result.sig, m.Sig) && result.view == m.View && ((m.Sig == nil || m.Sig.Sig == nil) ==> result.sig == nil)
 //@   modifies alloc
-//@ func SyncInfoFromProto property C10
+//@ func verifRoundTripAggregateQC property C12
+//@   requires encodable(aggQC.sig) && encodableqcs(aggQC)
+//@   ensures [round-trip] samesig(result.sig, aggQC.sig) && result.view == aggQC.view
+//@   modifies alloc
+// Sync info: each optional certificate is present after decoding exactly when it was present
+// before encoding, with the same content.
+//@ pred encodablesi(si hotstuff.SyncInfo) = (si.qc != nil ==> encodable(si.qc.signature)) && (si.tc != nil ==> encodable(si.tc.signature)) && (si.aggQC != nil ==> encodable(si.aggQC.sig) && encodableqcs(*si.aggQC))
+//@ func SyncInfoToProto property C12
+//@   requires encodablesi(syncInfo)
+//@   ensures [encoded] result != nil && wsi(result) && (result.QC != nil) == (syncInfo.qc != nil) && (result.TC != nil) == (syncInfo.tc != nil) && (result.AggQC != nil) == (syncInfo.aggQC != nil)
+//@   ensures [qc] syncInfo.qc != nil ==> encodes(result.QC.Sig, syncInfo.qc.signature) && result.QC.View == syncInfo.qc.view && content(result.QC.Hash) == abytes(syncInfo.qc.hash) && len(result.QC.Hash) == 32
+//@   ensures [tc] syncInfo.tc != nil ==> encodes(result.TC.Sig, syncInfo.tc.signature) && result.TC.View == syncInfo.tc.view
+//@   ensures [aggqc] syncInfo.aggQC != nil ==> encodes(result.AggQC.Sig, syncInfo.aggQC.sig) && result.AggQC.View == syncInfo.aggQC.view
+//@   modifies alloc
+//@ func SyncInfoFromProto property C10,C12
 //@   requires wsi(m)
+//@   ensures [absent] m == nil ==> result.qc == nil && result.tc == nil && result.aggQC == nil
+//@   ensures [presence] m != nil ==> (result.qc != nil) == (m.QC != nil) && (result.tc != nil) == (m.TC != nil) && (result.aggQC != nil) == (m.AggQC != nil)
+//@   ensures [qc] m != nil && m.QC != nil ==> decodes(result.qc.signature, m.QC.Sig) && result.qc.view == m.QC.View && result.qc.hash == afrom(content(m.QC.Hash), len(m.QC.Hash), hotstuff.Hash{}) && ((m.QC.Sig == nil || m.QC.Sig.Sig == nil) ==> result.qc.signature == nil)
+//@   ensures [tc] m != nil && m.TC != nil ==> decodes(result.tc.signature, m.TC.Sig) && result.tc.view == m.TC.View && ((m.TC.Sig == nil || m.TC.Sig.Sig == nil) ==> result.tc.signature == nil)
+//@   ensures [aggqc] m != nil && m.AggQC != nil ==> decodes(result.aggQC.sig, m.AggQC.Sig) && result.aggQC.view == m.AggQC.View && ((m.AggQC.Sig == nil || m.AggQC.Sig.Sig == nil) ==> result.aggQC.sig == nil)
 //@   modifies alloc
-//@ func TimeoutMsgFromProto property C10
+//@ func verifRoundTripSyncInfo property C12
+//@   requires encodablesi(si)
+//@   ensures [presence] (result.qc != nil) == (si.qc != nil) && (result.tc != nil) == (si.tc != nil) && (result.aggQC != nil) == (si.aggQC != nil)
+//@   ensures [qc] si.qc != nil ==> samesig(result.qc.signature, si.qc.signature) && result.qc.view == si.qc.view && result.qc.hash == si.qc.hash
+//@   ensures [tc] si.tc != nil ==> samesig(result.tc.signature, si.tc.signature) && result.tc.view == si.tc.view
+//@   ensures [aggqc] si.aggQC != nil ==> samesig(result.aggQC.sig, si.aggQC.sig) && result.aggQC.view == si.aggQC.view
+//@   modifies alloc
+// Timeout message: view, both signatures (the message signature is optional) and the sync info.
+// (The sender id is not part of the wire message: it is taken from the connection.)
+//@ func TimeoutMsgToProto property C12
+//@   requires encodable(timeoutMsg.ViewSignature) && encodable(timeoutMsg.MsgSignature) && encodablesi(timeoutMsg.SyncInfo)
+//@   ensures [wire-shape] result != nil && wtm(result)
+//@   ensures [view] result.View == timeoutMsg.View
+//@   ensures [view-signature] encodes(result.ViewSig, timeoutMsg.ViewSignature)
+//@   ensures [msg-signature] (result.MsgSig != nil) == (timeoutMsg.MsgSignature != nil) && (timeoutMsg.MsgSignature != nil ==> encodes(result.MsgSig, timeoutMsg.MsgSignature))
+//@   ensures [sync-info-presence] result.SyncInfo != nil && (result.SyncInfo.QC != nil) == (timeoutMsg.SyncInfo.qc != nil) && (result.SyncInfo.TC != nil) == (timeoutMsg.SyncInfo.tc != nil) && (result.SyncInfo.AggQC != nil) == (timeoutMsg.SyncInfo.aggQC != nil)
+//@   ensures [sync-info-qc] timeoutMsg.SyncInfo.qc != nil ==> encodes(result.SyncInfo.QC.Sig, timeoutMsg.SyncInfo.qc.signature) && result.SyncInfo.QC.View == timeoutMsg.SyncInfo.qc.view && content(result.SyncInfo.QC.Hash) == abytes(timeoutMsg.SyncInfo.qc.hash) && len(result.SyncInfo.QC.Hash) == 32
+//@   ensures [sync-info-tc] timeoutMsg.SyncInfo.tc != nil ==> encodes(result.SyncInfo.TC.Sig, timeoutMsg.SyncInfo.tc.signature) && result.SyncInfo.TC.View == timeoutMsg.SyncInfo.tc.view
+//@   ensures [sync-info-aggqc] timeoutMsg.SyncInfo.aggQC != nil ==> encodes(result.SyncInfo.AggQC.Sig, timeoutMsg.SyncInfo.aggQC.sig) && result.SyncInfo.AggQC.View == timeoutMsg.SyncInfo.aggQC.view
+//@   modifies alloc
+//@ func TimeoutMsgFromProto property C10,C12
 //@   requires wtm(m)
+//@   ensures [decoded] m != nil ==> result.View == m.View && decodes(result.ViewSignature, m.ViewSig) && ((m.ViewSig == nil || m.ViewSig.Sig == nil) ==> result.ViewSignature == nil) && (m.MsgSig != nil ==> decodes(result.MsgSignature, m.MsgSig) && (m.MsgSig.Sig == nil ==> result.MsgSignature == nil)) && (m.MsgSig == nil ==> result.MsgSignature == nil)
+//@   ensures [sync-info] m != nil && m.SyncInfo != nil ==> (result.SyncInfo.qc != nil) == (m.SyncInfo.QC != nil) && (result.SyncInfo.tc != nil) == (m.SyncInfo.TC != nil) && (result.SyncInfo.aggQC != nil) == (m.SyncInfo.AggQC != nil) && (m.SyncInfo.QC != nil ==> decodes(result.SyncInfo.qc.signature, m.SyncInfo.QC.Sig) && result.SyncInfo.qc.view == m.SyncInfo.QC.View && result.SyncInfo.qc.hash == afrom(content(m.SyncInfo.QC.Hash), len(m.SyncInfo.QC.Hash), hotstuff.Hash{}) && ((m.SyncInfo.QC.Sig == nil || m.SyncInfo.QC.Sig.Sig == nil) ==> result.SyncInfo.qc.signature == nil)) && (m.SyncInfo.TC != nil ==> decodes(result.SyncInfo.tc.signature, m.SyncInfo.TC.Sig) && result.SyncInfo.tc.view == m.SyncInfo.TC.View && ((m.SyncInfo.TC.Sig == nil || m.SyncInfo.TC.Sig.Sig == nil) ==> result.SyncInfo.tc.signature == nil)) && (m.SyncInfo.AggQC != nil ==> decodes(result.SyncInfo.aggQC.sig, m.SyncInfo.AggQC.Sig) && result.SyncInfo.aggQC.view == m.SyncInfo.AggQC.View && ((m.SyncInfo.AggQC.Sig == nil || m.SyncInfo.AggQC.Sig.Sig == nil) ==> result.SyncInfo.aggQC.sig == nil))
+//@   modifies alloc
+//@ func verifRoundTripTimeoutMsg property C12
+//@   requires encodable(m.ViewSignature) && encodable(m.MsgSignature) && encodablesi(m.SyncInfo)
+//@   ensures [round-trip] result.View == m.View && samesig(result.ViewSignature, m.ViewSignature) && samesig(result.MsgSignature, m.MsgSignature)
+//@   ensures [sync-info-presence] (result.SyncInfo.qc != nil) == (m.SyncInfo.qc != nil) && (result.SyncInfo.tc != nil) == (m.SyncInfo.tc != nil) && (result.SyncInfo.aggQC != nil) == (m.SyncInfo.aggQC != nil)
+//@   ensures [sync-info-qc] m.SyncInfo.qc != nil ==> samesig(result.SyncInfo.qc.signature, m.SyncInfo.qc.signature) && result.SyncInfo.qc.view == m.SyncInfo.qc.view && result.SyncInfo.qc.hash == m.SyncInfo.qc.hash
+//@   ensures [sync-info-tc] m.SyncInfo.tc != nil ==> samesig(result.SyncInfo.tc.signature, m.SyncInfo.tc.signature) && result.SyncInfo.tc.view == m.SyncInfo.tc.view
+//@   ensures [sync-info-aggqc] m.SyncInfo.aggQC != nil ==> samesig(result.SyncInfo.aggQC.sig, m.SyncInfo.aggQC.sig) && result.SyncInfo.aggQC.view == m.SyncInfo.aggQC.view
 //@   modifies alloc
 // A block travels as its parent hash, batch, certificate, view, proposer and the instant of
 // its timestamp (seconds and nanoseconds).
@@ -140,6 +199,30 @@ package hotstuffpb
 //@   ensures [round-trip-certificate] samesig(result.cert.signature, block.cert.signature) && result.cert.view == block.cert.view && result.cert.hash == block.cert.hash
 //@   ensures [round-trip-timestamp] tsecs(result.ts) == tsecs(block.ts) && tnanos(result.ts) == tnanos(block.ts)
 //@   modifies alloc
-//@ func ProposalFromProto property C10
+// Proposal: the block and the optional aggregate QC. (The sender id is taken from the connection.)
+//@ func ProposalToProto property C12
+//@   requires proposal.Block != nil && encodable(proposal.Block.cert.signature) && (proposal.AggregateQC != nil ==> encodable(proposal.AggregateQC.sig) && encodableqcs(*proposal.AggregateQC))
+//@   ensures [wire-shape] result != nil && wprop(result) && result.Block != nil
+//@   ensures [aggqc-presence] (result.AggQC != nil) == (proposal.AggregateQC != nil)
+//@   ensures [aggqc] proposal.AggregateQC != nil ==> encodes(result.AggQC.Sig, proposal.AggregateQC.sig) && result.AggQC.View == proposal.AggregateQC.view
+//@   ensures [block] content(result.Block.Parent) == abytes(proposal.Block.parent) && len(result.Block.Parent) == 32 && result.Block.Commands == proposal.Block.batch && result.Block.View == proposal.Block.view && result.Block.Proposer == proposal.Block.proposer
+//@   ensures [block-certificate] result.Block.QC != nil && encodes(result.Block.QC.Sig, proposal.Block.cert.signature) && result.Block.QC.View == proposal.Block.cert.view && content(result.Block.QC.Hash) == abytes(proposal.Block.cert.hash) && len(result.Block.QC.Hash) == 32
+//@   ensures [block-timestamp] result.Block.Timestamp != nil && result.Block.Timestamp.Seconds == tsecs(proposal.Block.ts) && result.Block.Timestamp.Nanos == tnanos(proposal.Block.ts) && 0 <= result.Block.Timestamp.Nanos && result.Block.Timestamp.Nanos < 1000000000
+//@   modifies alloc
+//@ func ProposalFromProto property C10,C12
 //@   requires wprop(p)
+//@   ensures [block-presence] (proposal.Block != nil) == (p != nil && p.Block != nil)
+//@   ensures [aggqc-presence] (proposal.AggregateQC != nil) == (p != nil && p.AggQC != nil)
+//@   ensures [aggqc] p != nil && p.AggQC != nil ==> decodes(proposal.AggregateQC.sig, p.AggQC.Sig) && proposal.AggregateQC.view == p.AggQC.View && ((p.AggQC.Sig == nil || p.AggQC.Sig.Sig == nil) ==> proposal.AggregateQC.sig == nil)
+//@   ensures [block] p != nil && p.Block != nil ==> proposal.Block.parent == afrom(content(p.Block.Parent), len(p.Block.Parent), hotstuff.Hash{}) && proposal.Block.batch == p.Block.Commands && proposal.Block.view == p.Block.View && proposal.Block.proposer == p.Block.Proposer
+//@   ensures [block-certificate] p != nil && p.Block != nil && p.Block.QC != nil ==> decodes(proposal.Block.cert.signature, p.Block.QC.Sig) && proposal.Block.cert.view == p.Block.QC.View && proposal.Block.cert.hash == afrom(content(p.Block.QC.Hash), len(p.Block.QC.Hash), hotstuff.Hash{}) && ((p.Block.QC.Sig == nil || p.Block.QC.Sig.Sig == nil) ==> proposal.Block.cert.signature == nil)
+//@   ensures [block-timestamp] p != nil && p.Block != nil && p.Block.Timestamp != nil && 0 <= p.Block.Timestamp.Nanos && p.Block.Timestamp.Nanos < 1000000000 ==> tsecs(proposal.Block.ts) == p.Block.Timestamp.Seconds && tnanos(proposal.Block.ts) == p.Block.Timestamp.Nanos
+//@   modifies alloc
+//@ func verifRoundTripProposal property C12
+//@   requires p.Block != nil && encodable(p.Block.cert.signature) && (p.AggregateQC != nil ==> encodable(p.AggregateQC.sig) && encodableqcs(*p.AggregateQC))
+//@   ensures [presence] result.Block != nil && (result.AggregateQC != nil) == (p.AggregateQC != nil)
+//@   ensures [aggqc] p.AggregateQC != nil ==> samesig(result.AggregateQC.sig, p.AggregateQC.sig) && result.AggregateQC.view == p.AggregateQC.view
+//@   ensures [block] result.Block.parent == p.Block.parent && result.Block.batch == p.Block.batch && result.Block.view == p.Block.view && result.Block.proposer == p.Block.proposer
+//@   ensures [block-certificate] samesig(result.Block.cert.signature, p.Block.cert.signature) && result.Block.cert.view == p.Block.cert.view && result.Block.cert.hash == p.Block.cert.hash
+//@   ensures [block-timestamp] tsecs(result.Block.ts) == tsecs(p.Block.ts) && tnanos(result.Block.ts) == tnanos(p.Block.ts)
 //@   modifies alloc
